@@ -13,6 +13,9 @@
  *       = mkfs.c main(): dir_tree_iterator_create(packdir, cfg); scan_directory(fs, dir, 0, NULL); post process
  *   packfile <order> <file> <packdir> <d.uid> <d.gid> <d.mtime> <d.mode> <dirscan_flags> <force_uid> <force_gid>
  *       = fstree_from_file(fs, file, opt); post process          (pack file with `glob` lines)
+ *   direct <full|count> <d.uid> <d.gid> <d.mtime> <d.mode> <n> { <A|L> <path> <mode> <uid> <gid> <mtime> <rdev> <extra> }
+ *       = fstree_add_generic() called directly for every entry (L: SQFS_DIR_ENTRY_FLAG_HARD_LINK, extra = link target;
+ *         extra "-" = NULL, "p:<hex>" = string), then fstree_post_process     → dump (full) | "ok n=<count>" (count) | "err"
  *   isort <name>*
  *       = fstree_add_generic() of a regular file of each name, in the order given, into an empty tree; prints the names of
  *         the root's children in list order (insert_sorted)                       → "ok <name>*" | "err"
@@ -228,6 +231,49 @@ int main(void)
 			fstree_cleanup(&fs);
 			free(file);
 			free(packdir);
+		} else if (argc >= 7 && strcmp(argv[0], "direct") == 0) {
+			long n = strtol(argv[6], NULL, 10), i;
+
+			if (n < 0 || argc != 7 + 8 * n) { puts("bad-op"); continue; }
+			memset(&defaults, 0, sizeof(defaults));
+			defaults.uid = strtoul(argv[2], NULL, 10);
+			defaults.gid = strtoul(argv[3], NULL, 10);
+			defaults.mtime = strtoul(argv[4], NULL, 10);
+			defaults.mode = strtoul(argv[5], NULL, 10);
+			if (fstree_init(&fs, &defaults)) { puts("bad-op"); continue; }
+			ok = 1;
+			for (i = 0; i < n && ok; ++i) {
+				char **a = argv + 7 + 8 * i;
+				char *path = tok_str(a[1]), *extra = NULL;
+				sqfs_dir_entry_t *ent;
+
+				if (path == NULL) { ok = -1; break; }
+				if (strcmp(a[7], "-") != 0) {
+					if (strncmp(a[7], "p:", 2) != 0 || (extra = tok_str(a[7] + 2)) == NULL) { ok = -1; free(path); break; }
+				}
+				ent = sqfs_dir_entry_create(path, (sqfs_u16)strtoul(a[2], NULL, 10), a[0][0] == 'L' ? SQFS_DIR_ENTRY_FLAG_HARD_LINK : 0);
+				if (ent == NULL) abort();
+				ent->uid = strtoull(a[3], NULL, 10);
+				ent->gid = strtoull(a[4], NULL, 10);
+				ent->mtime = strtoll(a[5], NULL, 10);
+				ent->rdev = strtoull(a[6], NULL, 10);
+				if (fstree_add_generic(&fs, ent, extra) == NULL)
+					ok = 0;
+				free(ent);
+				free(extra);
+				free(path);
+			}
+			if (ok < 0) { puts("bad-op"); fstree_cleanup(&fs); continue; }
+			if (ok && fstree_post_process(&fs) != 0)
+				ok = 0;
+			if (!ok)
+				fputs("err", stdout);
+			else if (strcmp(argv[1], "count") == 0)
+				printf("ok n=%lu", (unsigned long)fs.unique_inode_count);
+			else
+				dump_tree(&fs);
+			fputc('\n', stdout);
+			fstree_cleanup(&fs);
 		} else if (strcmp(argv[0], "isort") == 0) {
 			tree_node_t *c;
 			int i;
